@@ -24,8 +24,12 @@ ALLOWED_AXIOMS = {
 }
 TRUSTED = [
     "translator harness/translate/inertia.py (the nine tensor assignments of Molecule._inertial_tensor and GEOMETRY_NOISE -> Gen/Inertia.v; fail-closed)",
-    "hand-written model Model/Orient.v of _orient_molecule_internal (centroid shift, rotation by eigh's eigenvectors, phase loop with "
-    "deferred sign application), tied by differential execution",
+    "translator generate_body in harness/translate/inertia.py: statement order and loop skeleton of _orient_molecule_internal are checked "
+    "against the source text (fail-closed, incl. that only self.geometry / self.masses / self._inertial_tensor are consulted), its "
+    "operands, tests, multiplier and threshold are translated into Gen/OrientBody.v over the hand-written primitives of "
+    "Common/Geo3Loop.v (np.average with weights, in-place row subtraction, np.dot, abs, the loop skeleton)",
+    "the hand-written model Model/Orient.v (deferred signs) is no longer trusted for the body: C16_generated_body_is_model proves the "
+    "generated body equal to it for all inputs; the correspondence now executes the generated body",
     "np.linalg.eigh (LAPACK) is not modelled: it is a parameter of the model constrained by eigh_ok (V^T V = V V^T = I, A V = V diag(w), "
     "w ascending); every run evaluates this predicate numerically (1e-9) on what numpy returned for each molecule",
     "numpy elementwise arithmetic, np.average, np.dot, float_prep rounding to 8 decimals: modelled over an exact field / compared with "
@@ -40,13 +44,15 @@ ASSUMPTIONS = [
     "cases in which some rotated coordinate lies within a factor 2 of the 1e-8 phase threshold are not compared with the exact model "
     "(the binary64 and exact decisions may legitimately differ there); they are counted",
 ]
-EXTRA_TARGETS = ["Model/Orient.vo"]
-REQ = ["QV.Common.Outcome", "QV.Common.Geo3", "QV.Common.Geo3Q", "QV.Common.Geo3Sum", "QV.Gen.Inertia", "QV.Model.Orient"]
+EXTRA_TARGETS = ["Model/Orient.vo", "Model/OrientCheck.vo"]
+REQ = ["QV.Common.Outcome", "QV.Common.Geo3", "QV.Common.Geo3Q", "QV.Common.Geo3Sum", "QV.Gen.Inertia", "QV.Model.Orient",
+       "QV.Model.OrientCheck"]
 NOISE = 1e-8
 
 
 def translate(ctx):
     inertia.generate(ctx.repo, os.path.join(coqrun.COQ, "Gen", "Inertia.v"))
+    inertia.generate_body(ctx.repo, os.path.join(coqrun.COQ, "Gen", "OrientBody.v"))
 
 
 # ------------------------------------------------------------------------------------------------
@@ -164,9 +170,12 @@ def oracle(case):
     n = len(w)
     obs = {"g0": g0, "w": w, "raw": raw}
     scale = 1.0 + float(np.abs(g0).max())
-    # rounded geometry = the internal result rounded to 8 decimals
-    if np.abs(g1 - raw).max() > 0.5e-8 + 1e-12 * scale:
-        bad("oriented geometry is not the internal result rounded to 8 decimals", float(np.abs(g1 - raw).max()))
+    # stored geometry = float_prep(internal result): rounded to 8 decimals, and (as float_prep does for every geometry) entries
+    # below 5**-9 ~ 5.12e-7 in magnitude set to zero
+    ok = (np.abs(g1 - raw) <= 0.5e-8 + 1e-12 * scale) | ((g1 == 0) & (np.abs(raw) < 5.2e-7))
+    if not ok.all():
+        bad("oriented geometry is not the internal result after the geometry rounding (8 decimals, |x| < 5**-9 -> 0)",
+            float(np.abs(g1 - raw).max()))
     # isometry
     dd = np.abs(pair_dists(g1) - pair_dists(g0)).max() if n > 1 else 0.0
     if dd > 1e-7 * scale:
@@ -188,7 +197,7 @@ def oracle(case):
     if np.abs(com).max() > 1e-9 * scale:
         bad("centre of mass is not at the origin", com.tolist())
     com = (w[:, None] * g1).sum(axis=0) / w.sum()
-    if np.abs(com).max() > 1e-7:
+    if np.abs(com).max() > 6e-7:
         bad("centre of mass is not at the origin (rounded geometry)", com.tolist())
     # inertia tensor diagonal, ascending
     t = inertia_ref(raw, w)
@@ -202,12 +211,26 @@ def oracle(case):
     for ax in range(3):
         if not first_significant_positive(raw[:, ax], NOISE):
             bad(f"phase convention violated on axis {ax}: first atom with |coordinate| >= 1e-8 is negative", raw[:, ax].tolist())
+    # asymmetric top?
+    mom = sorted([t[0][0], t[1][1], t[2][2]])
+    gap = min(mom[1] - mom[0], mom[2] - mom[1])
+    asym = n >= 3 and gap > 1e-2 * tsc
+    obs["asym"] = asym
+    # conditioning: a coordinate perturbation d (the 8-decimal rounding, <= 5e-9) changes the tensor by <= ~2 d sum m|x|,
+    # turns the eigenvectors by <= that / gap, and so moves coordinates by <= that * max|x|
+    amp = 1.0 + (4.0 * float((w * np.linalg.norm(raw, axis=1)).sum()) * float(np.abs(raw).max()) / gap if asym else 0.0)
+    # float_prep also sets entries with |x| < 5**-9 ~ 5.12e-7 to zero (on every stored geometry): where that is active the
+    # perturbation is 5.2e-7 instead of the 8-decimal rounding
+    gin = np.array([[float(Fr(c)) for c in p] for p in case["geom"]], dtype=float)
+    zeroing = bool(np.any((np.abs(raw) > 0) & (np.abs(raw) < 5.2e-7)) or np.any((np.abs(gin) > 0) & (np.abs(gin) < 5.2e-7)))
+    utol = (1.1e-6 if zeroing else 2e-8) * amp
+    rtol = utol if zeroing else 0.0
     # other routes
     o2 = Molecule(orient=True, **kw)
-    if np.abs(np.array(o2.geometry) - g1).max() > 0:
+    if np.abs(np.array(o2.geometry) - g1).max() > rtol:
         bad("Molecule(orient=True, ...) differs from orient_molecule()", float(np.abs(np.array(o2.geometry) - g1).max()))
     o3 = Molecule.from_data(kw, dtype="dict", orient=True)
-    if np.abs(np.array(o3.geometry) - g1).max() > 0:
+    if np.abs(np.array(o3.geometry) - g1).max() > rtol:
         bad("Molecule.from_data(..., orient=True) differs from orient_molecule()", float(np.abs(np.array(o3.geometry) - g1).max()))
     for nm, o in (("Molecule(orient=True, ...)", o2), ("Molecule.from_data(dict, orient=True)", o3)):
         da = o.dict()
@@ -226,7 +249,7 @@ def oracle(case):
         # the text route re-derives masses from the symbols, so judge it on its own: centred, diagonal, phase, same shape
         w4 = np.array(o4.masses, dtype=float)
         com4 = (w4[:, None] * g4).sum(axis=0) / w4.sum()
-        if np.abs(com4).max() > 1e-7:
+        if np.abs(com4).max() > 6e-7:
             bad("psi4 text route (from_data(text, orient=True)): centre of mass is not at the origin", com4.tolist())
         t4 = inertia_ref(g4, w4)
         s4 = 1.0 + float(np.abs(t4).max())
@@ -234,17 +257,8 @@ def oracle(case):
             bad("psi4 text route (from_data(text, orient=True)): inertia tensor is not diagonal ascending", t4.tolist())
         if n > 1 and np.abs(pair_dists(g4) - pair_dists(g0)).max() > 1e-7 * scale:
             bad("psi4 text route: an interatomic distance changed", float(np.abs(pair_dists(g4) - pair_dists(g0)).max()))
-        if np.array_equal(w4, w) and np.abs(g4 - g1).max() > 0:
+        if np.array_equal(w4, w) and np.abs(g4 - g1).max() > rtol:
             bad("psi4 text route differs from orient_molecule()", float(np.abs(g4 - g1).max()))
-    # asymmetric top?
-    mom = sorted([t[0][0], t[1][1], t[2][2]])
-    gap = min(mom[1] - mom[0], mom[2] - mom[1])
-    asym = n >= 3 and gap > 1e-2 * tsc
-    obs["asym"] = asym
-    # conditioning: a coordinate perturbation d (the 8-decimal rounding, <= 5e-9) changes the tensor by <= ~2 d sum m|x|,
-    # turns the eigenvectors by <= that / gap, and so moves coordinates by <= that * max|x|
-    amp = 1.0 + (4.0 * float((w * np.linalg.norm(raw, axis=1)).sum()) * float(np.abs(raw).max()) / gap if asym else 0.0)
-    utol = 2e-8 * amp
     # a rigidly moved copy
     mo = case.get("motion")
     if mo:
@@ -292,7 +306,7 @@ def terms(case, obs):
     lam_s = "(" + ", ".join(cq(Fr(f"{float(x):.11e}")) for x in lam) + ")"
     V_s = "(" + ", ".join("(" + ", ".join(cdec(c, 11) for c in r) + ")" for r in V) + ")"
     if not near:
-        out["chk_orient"] = f"({atoms}, ({lam_s}, {V_s}), (Some {clist(raw, cvec)}))"
+        out["chk_orient_gen"] = f"({atoms}, ({lam_s}, {V_s}), (Some {clist(raw, cvec)}))"
     else:
         out["near_threshold"] = True
     # the generated tensor on the uncentred geometry as well
@@ -302,7 +316,7 @@ def terms(case, obs):
 
 
 CHK_TY = {
-    "chk_orient": "list (watom QK) * (vec3 QK * mat3 QK) * option (list (vec3 QK))",
+    "chk_orient_gen": "list (watom QK) * (vec3 QK * mat3 QK) * option (list (vec3 QK))",
     "chk_tensor": "list (watom QK) * mat3 QK",
 }
 
@@ -350,6 +364,15 @@ def rnd_molecule(rng, shape):
             for _ in range(n):
                 a, b = rnd_coord(rng, 3), rnd_coord(rng, 3)
                 P.append(tuple(o[i] + a * u[i] + b * v[i] for i in range(3)))
+        elif shape == "nearplanar":
+            # planar up to out-of-plane offsets between 3e-8 and 1e-6: the phase threshold 1e-8 decides the sign of that axis
+            n = rng.randint(4, 8)
+            P = []
+            for _ in range(n):
+                off = Fr(rng.choice([-1, 1]) * rng.choice([3, 5, 8, 20, 60, 100]), 10 ** 8)
+                P.append((rnd_coord(rng, 4), rnd_coord(rng, 4), off))
+            if len(set(P[i][2] for i in range(n))) < 3:
+                continue
         elif shape == "symtop":
             # a square of equal atoms in the xy plane plus atoms on the z axis: I_xx = I_yy exactly
             r = Fr(rng.randint(1, 4), rng.choice([1, 2]))
@@ -421,7 +444,7 @@ def gen_cases(ctx):
                   "motion": {"q": [1, 1, 0, 0], "t": ["0", "0", "0"]}})
     cases.append({"stream": "corpus", "shape": "atom", "symbols": ["Ne"], "geom": z((1, 2, 3)), "motion": {"q": [1, 0, 1, 0], "t": ["1", "1", "1"]}})
     plan = [("asym", 6000 if T else 300), ("planar", 1500 if T else 80), ("linear", 1200 if T else 60), ("symtop", 1200 if T else 60),
-            ("sphtop", 200 if T else 15), ("diatomic", 400 if T else 30), ("atom", 60 if T else 8)]
+            ("sphtop", 200 if T else 15), ("nearplanar", 800 if T else 50), ("diatomic", 400 if T else 30), ("atom", 60 if T else 8)]
     for shape, k in plan:
         for _ in range(k):
             c = rnd_molecule(rng, shape)
@@ -438,7 +461,7 @@ def judge(case):
 def correspond(ctx):
     corr = Corr()
     corr.rule = ("molecules of 1-12 atoms with rational coordinates in [-5,5] (denominators 1..10), random isotopes / explicit masses / "
-                 "ghost atoms, frame flags fix_com / fix_orientation (all four combinations) / fix_symmetry, of shapes: generic (asymmetric), planar, linear, symmetric top, spherical top, diatomic, single atom; each "
+                 "ghost atoms, frame flags fix_com / fix_orientation (all four combinations) / fix_symmetry, of shapes: generic (asymmetric), planar, nearly planar (out-of-plane offsets 3e-8..1e-6, around the phase threshold), linear, symmetric top, spherical top, diatomic, single atom; each "
                  "also as a rigidly moved copy (rational rotation from an integer quaternion + translation). A case is non-trivial if it "
                  "has >= 2 atoms; distinct = distinct inputs")
     cases = gen_cases(ctx)
